@@ -63,4 +63,104 @@ Proof.
   - intros H. injection H as <- _. split; [reflexivity|intros p; reflexivity].
 Qed.
 
+(* ---------------------------------------------------------------- actions *)
+Lemma osexp_eqb_eq a b : osexp_eqb a b = true -> a = b.
+Proof. destruct a as [x|], b as [y|]; cbn [osexp_eqb]; try discriminate; [|reflexivity]. intros H. apply sexp_eqb_eq in H. congruence. Qed.
+
+Lemma action_ok_spec (a : action U) : action_ok U a = true ->
+  exists tp q, action_fields a = Ok (tp, q) /\ row_payload U tp q = Some (act_payload U a).
+Proof.
+  unfold action_ok. destruct (action_fields a) as [[tp q]|e]; [|discriminate]. intros H. apply osexp_eqb_eq in H. exists tp, q. auto.
+Qed.
+
+Lemma row_tp_action (m : node U) j a tp q : nth_error (n_actions m) j = Some a -> action_fields a = Ok (tp, q) ->
+  row_tp U m j = Some (tp, node_base_pay m ++ q).
+Proof.
+  intros Hn Ha. unfold row_tp. destruct (n_actions m) as [|a0 l]; [destruct j; discriminate|]. rewrite Hn, Ha. reflexivity.
+Qed.
+
+Lemma flat_map_seq_nth {A B} (g : nat -> list B) (h : A -> B) (l : list A) : forall i0,
+  (forall j a, nth_error l j = Some a -> g (i0 + j)%nat = [h a]) -> flat_map g (seq i0 (List.length l)) = map h l.
+Proof.
+  induction l as [|x l IH]; intros i0 H; [reflexivity|]. cbn [List.length seq flat_map map].
+  rewrite (IH (S i0)) by (intros j a Hj; rewrite <- (H (S j) a Hj); f_equal; lia).
+  pose proof (H 0%nat x eq_refl) as H0. rewrite Nat.add_0_r in H0. rewrite H0. reflexivity.
+Qed.
+
+(* ---------------------------------------------------------------- nodes without a router *)
+Section Basic.
+Variables (m : node U) (d : option U).
+Hypothesis Hk : n_kind m = NBasic U d.
+Hypothesis Hne : n_actions m <> [].
+Hypothesis Hpl : forall a, In a (n_actions m) -> plain_action U a = true.
+Hypothesis Hok : forall a, In a (n_actions m) -> action_ok U a = true.
+Hypothesis Hstrip : strip = true -> (List.length (n_actions m) <= 1)%nat.
+
+Lemma len_pos : (0 < List.length (n_actions m))%nat.
+Proof. destruct (List.length (n_actions m)) eqn:E; [apply length_zero_iff_nil in E; contradiction|lia]. Qed.
+
+Lemma nrows_basic : Nat.max 1 (List.length (n_actions m)) = List.length (n_actions m).
+Proof. pose proof len_pos. lia. Qed.
+
+Lemma basic_nk j a : nth_error (n_actions m) j = Some a ->
+  exists tp q, row_tp U m j = Some (tp, node_base_pay m ++ q) /\ is_node_type tp = true /\ nk U m j = (EAction, [act_payload U a], None).
+Proof.
+  intros Hj. pose proof (nth_error_In _ _ Hj) as Hin. destruct (action_ok_spec a (Hok a Hin)) as (tp & q & Ha & Hp).
+  destruct (plain_tp a tp q (Hpl a Hin) Ha) as [Ht Hn]. exists tp, q. pose proof (row_tp_action m j a tp q Hj Ha) as Er.
+  split; [exact Er|]. split; [exact Ht|]. unfold nk. rewrite Er, abs_nkind_base, Hn. unfold acts_of. rewrite Hp. reflexivity.
+Qed.
+
+Lemma basic_runnable : runnable U strip m.
+Proof.
+  unfold runnable. rewrite nrows_basic. split; [|split].
+  - intros j Hj. destruct (nth_error (n_actions m) j) as [a|] eqn:Ea; [|apply nth_error_None in Ea; lia].
+    destruct (basic_nk j a Ea) as (tp & q & A & B & _). exists tp, (node_base_pay m ++ q). auto.
+  - intros j [_ Hj]. destruct (nth_error (n_actions m) j) as [a|] eqn:Ea; [|apply nth_error_None in Ea; lia].
+    destruct (basic_nk j a Ea) as (tp & q & _ & _ & C). unfold acts_at. rewrite C. discriminate.
+  - intros Hs. pose proof (Hstrip Hs). pose proof len_pos. lia.
+Qed.
+
+Lemma basic_cls : cls_of U m = EAction /\ dec0_of U m = None.
+Proof.
+  destruct (nth_error (n_actions m) 0) as [a|] eqn:H0; [|apply nth_error_None in H0; pose proof len_pos; lia].
+  destruct (basic_nk 0 a H0) as (tp & q & _ & _ & C). unfold cls_of, dec0_of. rewrite C. split; reflexivity.
+Qed.
+
+Lemma basic_acts : all_acts U m = map (act_payload U) (n_actions m).
+Proof.
+  unfold all_acts. rewrite nrows_basic. apply flat_map_seq_nth. intros j a Hj. cbn [Nat.add].
+  destruct (basic_nk j a Hj) as (tp & q & _ & _ & C). unfold acts_at. rewrite C. reflexivity.
+Qed.
+
+Lemma basic_pairs last : exit_edge_pairs ueqb m last = Ok [(d, {| e_from := last; e_cond := no_cond |})].
+Proof. unfold exit_edge_pairs. rewrite Hk. reflexivity. Qed.
+
+Lemma basic_sens c : sens U m c = false.
+Proof. unfold sens. rewrite Hk. reflexivity. Qed.
+
+Lemma fL_blank_basic N t : rn_dec N = None -> fL U ustr EAction N (no_cond, t) = Some (mkRNode (rn_actions N) None t).
+Proof. intros H. unfold fL, apply_row_edge. cbn [fst snd]. rewrite H. reflexivity. Qed.
+
+Theorem basic_good : node_good U ueqb ustr strip m.
+Proof.
+  split; [apply basic_runnable|]. intros sn prs Hsn Hp. rewrite basic_pairs in Hp. injection Hp as <-.
+  split; [intros p _ Hs; rewrite basic_sens in Hs; discriminate|].
+  split; [cbn [map filter]; rewrite basic_sens; constructor|].
+  intros kp dn Hdn. destruct basic_cls as [Ec Ed]. rewrite Ec.
+  exists (fun N => rn_dec N = None /\ rn_actions N = all_acts U m).
+  assert (HX : forall x, In x (Xabs U kp m [(d, {| e_from := last_row_id m sn; e_cond := no_cond |})]) -> x = (no_cond, dest_of U kp d)).
+  { unfold Xabs. cbn [filter]. destruct (kept U m _); cbn [map]; intros x Hx; [destruct Hx as [<-|[]]; reflexivity|contradiction]. }
+  split; [split; [exact Ed|reflexivity]|]. split; [|split].
+  - intros a y b Hy [Ha1 Ha2] Hb. rewrite (HX y Hy), (fL_blank_basic a _ Ha1) in Hb. injection Hb as <-. split; [reflexivity|exact Ha2].
+  - intros x y Hx Hy _ a _. rewrite (HX x Hx), (HX y Hy). reflexivity.
+  - unfold Xabs, kept. cbn [filter fst snd]. destruct d as [d'|] eqn:Edd.
+    + cbn [map fold_opt fold_left]. unfold fold_opt. cbn [fold_left]. rewrite fL_blank_basic by exact Ed. eexists. split; [reflexivity|].
+      apply (NS_basic U dn kp m _ (Some d') Hk); cbn [rn_actions rn_dec rn_cont init_node]; [apply basic_acts|reflexivity|reflexivity|].
+      intros d0 E0. injection E0 as <-. apply (Hdn d' _ (or_introl eq_refl)).
+    + assert (En : nkeep U m && negb (cond_blank (@no_cond U)) = false) by (cbn; apply andb_false_r).
+      cbn [e_cond]. rewrite En. cbn [map]. exists (init_node U m). split; [reflexivity|].
+      apply (NS_basic U dn kp m _ None Hk); cbn [rn_actions rn_dec rn_cont init_node]; [apply basic_acts|exact Ed|reflexivity|discriminate].
+Qed.
+End Basic.
+
 End Local.
